@@ -511,7 +511,7 @@ func (s *Solver) ResetBase() {
 // 256-entry value table) instead of its syntactic structure: deep ite chains
 // from table lookups are what the solver is slowest on.
 func (s *Solver) compact(t *Term, mark int) bool {
-	if s.TT == nil || t.sz < 48 || t.sort == SortInt {
+	if s.TT == nil || t.sz < 600 || t.sort == SortInt || noCompact {
 		return false
 	}
 	v := s.TT.single8(t)
@@ -553,3 +553,5 @@ func (s *Solver) compact(t *Term, mark int) bool {
 	s.send(fmt.Sprintf("(define-fun t%d () %s %s)", t.id, sortString(t.sort), build(0, 256)))
 	return true
 }
+
+var noCompact = os.Getenv("GOSYM_NOCOMPACT") != ""
